@@ -331,7 +331,19 @@ def run_one(seed, index, tier):
     code = res.get("code", "").lower()
     if res["class"] is not None:
         cls = res["class"]
-        mscn, mops, best = shrink(scn, ops, setup, dm, cls)
+        import sys
+        from simkit import runner
+        pre = {"class": cls, "replay": {"observed": res.get("observed"),
+                                        "features": features(scn, ops, res)}}
+        # an instance of an open known finding is counted, not minimised -
+        # unless other transformation kinds are present that could hide a
+        # second cause (then minimise and classify the minimal history)
+        if runner.matches_open_known(sys.modules[__name__], pre) and \
+                len({o["t"] for o in ops} - {"acc-enter-data",
+                                             "redundant"}) <= 2:
+            mscn, mops, best = scn, ops, res
+        else:
+            mscn, mops, best = shrink(scn, ops, setup, dm, cls)
         if best is None:
             mscn, mops, best = scn, ops, res
         rep = {"property": PROPERTY, "engine": ENGINE, "engine_version": 1,
